@@ -65,3 +65,18 @@ def _trrel_uf_tern_reflexive(rec, f):
         return False
     miss = d.get("missing", [])
     return bool(miss) and all(t[-1] == t[-2] for t in miss)
+
+
+@matcher("lattice_read_with_all_columns_bound")
+def _lat_all_cols(rec, f):
+    """F18: a negation (or clause / agg) over a lattice with ALL columns bound reads the lattice's all-columns index,
+    which the head update of lattices never maintains during evaluation: `!d(x, v)` holds although d holds (x, v).
+    Matches only the reader nk of corpus program lat_val_bound: tuples that should have been excluded by the negation
+    are derived (extra tuples / underivable insertions), nothing is missing."""
+    case = rec.get("case", {})
+    d = rec.get("detail", {})
+    if case.get("prog") != "lat_val_bound" or d.get("rel") != "nk":
+        return False
+    if rec.get("kind") == "underivable-insert":
+        return True
+    return rec.get("kind") == "wrong-result" and not d.get("missing") and bool(d.get("extra"))
